@@ -57,6 +57,33 @@ Section TieCheck.
         [reflexivity | rewrite IH; apply Hcls; exact Hs | rewrite IH; symmetry; apply Hcls; exact Hs]. }
     exact (Hne (checkb_sound s (proj1 (forallb_forall _ _) Hall s (tails_in p _ s Hl)) v1 v2 L1 L2 Hcc)).
   Qed.
+  (* ... and none is written while another one is live *)
+  Definition checkdefb (l : list sop) : bool :=
+    match l with
+    | [] => true
+    | o :: s => forallb (fun d => forallb (fun v =>
+                  implb (negb (definedb s v) && Nat.eqb (cls d) (cls v)) (Nat.eqb d v)) (flat_map uses s)) (defs o)
+    end.
+
+  Lemma tie_check_def : forall pre f post,
+    (forall a b, ltie pre f post a b -> cls a = cls b) ->
+    forallb checkdefb (tails (virt pre f post)) = true ->
+    forall p o s, virt pre f post = p ++ o :: s -> forall d v, In d (defs o) -> live s v -> d <> v ->
+      tconn pre f post d v -> False.
+  Proof.
+    intros pre f post Hcls Hall p o s Hl d v Hd [U D] Hne Hc.
+    assert (Hcc : cls d = cls v).
+    { clear - Hc Hcls. induction Hc as [|u v w Hc IH [Hs|Hs]];
+        [reflexivity | rewrite IH; apply Hcls; exact Hs | rewrite IH; symmetry; apply Hcls; exact Hs]. }
+    pose proof (proj1 (forallb_forall _ _) Hall (o :: s) (tails_in p _ (o :: s) Hl)) as Hchk.
+    simpl in Hchk. rewrite forallb_forall in Hchk. specialize (Hchk d Hd). rewrite forallb_forall in Hchk.
+    assert (I : In v (flat_map uses s)). { destruct U as [o' [Ho Hv]]. apply in_flat_map. exists o'. split; assumption. }
+    specialize (Hchk v I).
+    assert (N : definedb s v = false).
+    { destruct (definedb s v) eqn:E; [|reflexivity]. exfalso. apply D.
+      unfold definedb in E. apply existsb_exists in E. destruct E as [o' [Ho Hv]]. exists o'. split; [exact Ho | apply memN_In; exact Hv]. }
+    rewrite N, Hcc, Nat.eqb_refl in Hchk. simpl in Hchk. apply Nat.eqb_eq in Hchk. exact (Hne Hchk).
+  Qed.
 End TieCheck.
 
 (* ---- the example ----
@@ -154,3 +181,8 @@ Proof.
   - apply (tie_check ex_cls ex_pre ex_f ex_post ex_ties). vm_compute. reflexivity.
   - exact E.
 Qed.
+
+Theorem loop_clobber_hypotheses_satisfiable :
+  forall p o s, virt ex_pre ex_f ex_post = p ++ o :: s -> forall d v, In d (defs o) -> live s v -> d <> v ->
+    tconn ex_pre ex_f ex_post d v -> False.
+Proof. apply (tie_check_def ex_cls ex_pre ex_f ex_post ex_ties). vm_compute. reflexivity. Qed.
